@@ -599,7 +599,7 @@ HYPOTHESES = ['field_theory + decidable equality of the carrier',
               'is_qr 0 = false (C13_swu_gx1_zero_value only: the code treats Legendre(0) as non-square, observation O-a)']
 
 # pinned theorems that instantiate this package's abstract-field theorems at the executed ZpOps dictionary
-EXTRA_PROP_FILES = ['Bridge2', 'C13Swu']
+EXTRA_PROP_FILES = ['Bridge2', 'C13Swu', 'Bridge2Swu']
 
 # T-field translator, table 2 (lib/xlate_field.py --table2): coq/Gen/GenField2.v (hash-to-curve maps, coordinate recovery,
 # subgroup tests / endomorphisms incl. the bls12_381 and bn254 overrides) is regenerated from the working tree before the Coq
